@@ -219,4 +219,105 @@ for cn, (decl, name) in cycles.items():
 legal_t = "type T = { a: string; k: { j: number }; x?: T };"
 w("types-cyc-grid/legal.top.tsx", hdr + pre + legal_t + "\n" + "\n".join(f"const C{i} = defineComponent((p: {pos.replace('{T}', 'T')}) => {{}});" for i, pos in enumerate(positions)), '{"resolveType":true}')
 w("types-cyc-grid/legal.emits.tsx", hdr + pre + legal_t + "\n" + "\n".join(f"const C{i} = defineComponent((p: {{}}, c: SetupContext<{pos.replace('{T}', 'T')}>) => {{}});" for i, pos in enumerate(positions)), '{"resolveType":true}')
+
+# ---- D. "multi": at least four of everything that can end up in a collection (so that an order that is not a
+# function of the input - hash keys, mark numbers, addresses - shows in the output with near certainty)
+w("multi/props-dynamic.jsx", "\n".join([
+    "const a1 = <div id={a} title={b} alt={c} lang={d} dir={e} role={f} tabindex={g} />;",
+    "const a2 = <Comp zeta={a} alpha={b} mid={c} beta={d} omega={e} gamma={f}>{k}</Comp>;",
+    "const a3 = <div onClick={a} onFocus={b} onBlur={c} onKeydown={d} onInput={e} id={i} />;",
+    "const a4 = <div data-a={a} data-b={b} aria-x={c} aria-y={d} z={z} y={y} x={x} w={w} />;",
+    "const a5 = <Comp onUpdate:a={a} onUpdate:b={b} onUpdate:c={c} modelValue={m} p={p} q={q} />;",
+    "const a6 = <div a={a} b='s' c={c} d={1} e={e} f={null} g={g} h i={i} />;",
+]))
+w("multi/spread-object.jsx", "\n".join([
+    "const s1 = <div {...{ id: a, title: b, alt: c, lang: d, dir: e }} />;",
+    "const s2 = <div x={1} {...{ id: a, title: b }} y={c} />;",
+    "const s3 = <Comp {...{ p: a, q: b, r: c, s: d, t: e, u: f }}>{k}</Comp>;",
+    "const s4 = <div {...{ a, b, c, d }} {...o} />;",
+    "const s5 = <div {...{ ['k']: v, a, b, c }} />;",
+    "const s6 = <div {...{ class: c, style: s, onClick: f, id: i, title: t, key: k, ref: r }} />;",
+    "const s7 = <div {...{ zeta: z, alpha: a }} {...{ mid: m, beta: b }} {...{ omega: o, gamma: g }} />;",
+    "const s8 = <div {...{ a: 1, b: 's', c: x, d: y, e: null, f: z }} />;",
+    "const s9 = <div {...{ get a() { return 1 }, b() {}, c: x, d: y, ...inner, e: z }} />;",
+    "const s10 = <Comp v-model={m} {...{ id: a, title: b, alt: c }} onFoo={f} />;",
+]))
+w("multi/directives.jsx", "\n".join([
+    "const d1 = <div v-a_m1_m2_m3_m4_m5={x} v-b:arg_z_y_x_w={y} v-c={[z, 'arg', ['q', 'r', 's', 't', 'u']]} />;",
+    "const d2 = <input v-model_lazy_trim_number={x} />;",
+    "const d3 = <A v-model:foo_a_b_c_d={x} v-model:bar_e_f_g={y} v-models={[[p, 'p1', ['m', 'n', 'o']], [q, 'q1', ['r', 's', 't']], [r, dyn, ['u', 'v', 'w']]]} />;",
+    "const d4 = <div v-show={s} v-one={1} v-two={2} v-three={3} v-four={4} v-five={5} />;",
+    "const d5 = <Comp v-x={[v, 'a', ['zeta', 'alpha', 'mid', 'beta', 'omega']]} v-model={[m, ['zeta', 'alpha', 'mid', 'beta']]}>{k}</Comp>;",
+    "const d6 = <textarea v-model_z_y_x_w_v={t} /> ;",
+    "const d7 = <select v-model={[s, ['lazy', 'number', 'trim', 'other']]}><option v-foo_c_b_a /></select>;",
+    "const d8 = <input type='checkbox' v-model_a_b_c={c} /> ;",
+    "const d9 = <input type={t} v-model={[d, ['p', 'q', 'r', 's']]} v-models={[[e, ['x', 'y', 'z']], [f, 'g', ['h', 'i', 'j']]]} />;",
+]))
+w("multi/slots.jsx", "\n".join([
+    "const l1 = <A v-slots={{ a: () => 1, b: () => 2, c, d, e }}>{{ x: () => 1, y: () => 2, z: () => 3 }}</A>;",
+    "const l2 = <A>{{ default: () => [<b />], header: () => <h />, footer, extra, more }}</A>;",
+    "const l3 = <A v-slots={{ zeta, alpha, mid, beta, omega }}><B>{f()}</B><C>{g()}</C><D>{h()}</D><E>{i()}</E></A>;",
+    "const l4 = <A>{a()}{b()}{c()}{d()}{e()}</A>;",
+    "const l5 = <A><B>{s1}</B><C>{s2}</C><D>{s3}</D><E>{s4}</E><F>{s5}</F></A>;",
+    "function fl() { return <A><B>{t1()}</B><C>{t2()}</C><D>{t3()}</D><E>{t4()}</E></A>; }",
+    "const al = () => <A><B>{u1()}</B><C>{u2()}</C><D>{u3()}</D><E>{u4()}</E></A>;",
+]))
+w("multi/captures.jsx", "\n".join([
+    "let foo, bar, baz, qux, quux;",
+    "foo = 0; bar = 0; baz = 0; qux = 0; quux = 0;",
+    "foo = <Foo>{foo}</Foo>;", "bar = <Bar>{bar}</Bar>;", "baz = <Baz>{baz}</Baz>;", "qux = <Qux>{qux}</Qux>;", "quux = <Quux>{quux}</Quux>;",
+    "function inner() { let a, b, c, d; a = <A>{a}</A>; b = <B>{b}</B>; c = <C>{c}</C>; d = <D>{d}</D>; return [a, b, c, d]; }",
+    "const arrow = () => { let p, q, r, s; p = <P>{p}</P>; q = <Q>{q}</Q>; r = <R>{r}</R>; s = <S>{s}</S>; };",
+    "{ let m, n, o; m = <M>{m}</M>; n = <N>{n}</N>; o = <O>{o}</O>; }",
+]))
+w("multi/imports.jsx", "\n".join([
+    "import { KeepAlive, Teleport, Transition } from 'vue';",
+    "const i1 = <><KeepAlive><A /></KeepAlive><Teleport to='b'><B /></Teleport></>;",
+    "const i2 = <div v-show={s} v-custom={c}>text {x} more</div>;",
+    "const i3 = <input v-model={m} /> ;", "const i4 = <input type='checkbox' v-model={m} /> ;", "const i5 = <input type='radio' v-model={m} /> ;",
+    "const i6 = <select v-model={m} /> ;", "const i7 = <input type={t} v-model={m} /> ;", "const i8 = <textarea v-model={m} /> ;",
+    "const i9 = <unknown-comp v-unknown-dir={d}>{f()}</unknown-comp>;",
+    "const i10 = <div {...a} {...b} class='c' onClick={[h1, h2]} />;",
+    "const i11 = <Comp onClick={h} on={{ a }} />;",
+    "const i12 = <Transition><KeepAlive>{g()}</KeepAlive></Transition>;",
+]))
+w("multi/class-style-on.jsx", "\n".join([
+    "const c1 = <div class='a' class={b} class={[c]} class={{ d }} style={s1} style={s2} style='s3' />;",
+    "const c2 = <div onClick={a} onClick={b} onClick={c} onFocus={d} onFocus={e} onBlur={f} />;",
+    "const c3 = <Comp class='a' {...x} class={b} {...y} style={s} onClick={a} {...z} onClick={b} />;",
+    "const c4 = <div {...x} class='a' {...y} class='b' {...z} class='c' />;",
+    "const c5 = <div key='k' ref={r} class={c} style={s} id='i' onClick={f} {...rest} key={k2} ref='r2' />;",
+]))
+thdr = 'import { defineComponent, SetupContext } from "vue";\n'
+w("multi/types.tsx", thdr + "\n".join([
+    "interface Props { zeta: string; alpha?: number; mid: boolean; beta: () => void; omega: string[]; gamma: object; delta: Date; eps: null; eta: any; theta: symbol }",
+    "type Emits = { (e: 'zeta'): void; (e: 'alpha', v: number): void; (e: 'mid' | 'beta' | 'omega'): void; (e: 'gamma'): void };",
+    "type Ev2 = { zeta: []; alpha: [n: number]; mid: []; beta: []; omega: [] };",
+    "type U = string | number | boolean | (() => void) | object | any[] | Date | symbol | null | undefined | bigint;",
+    "type I = Props & { extra1: U; extra2?: U; extra3: Props['zeta' | 'alpha' | 'mid'] };",
+    "const C1 = defineComponent((p: Props) => () => <div>{p.zeta}</div>);",
+    "const C2 = defineComponent((p: I, c: SetupContext<Emits>) => {});",
+    "const C3 = defineComponent((p: Pick<Props, 'zeta' | 'alpha' | 'mid' | 'beta'> & Omit<Props, 'zeta' | 'eps'>, { emit }: SetupContext<Ev2>) => {});",
+    "const C4 = defineComponent((p: { u: U; v?: U; w: 'a' | 1 | true | null; x: Props[keyof Props] }) => {});",
+    "const C5 = defineComponent((p: Partial<Props> & Required<{ a?: 1; b?: 2; c?: 3; d?: 4 }>) => {});",
+    "const C6 = defineComponent((p: Props = { zeta: 'z', alpha: 1, mid: true, beta() {}, omega: [], gamma: {} }) => {});",
+    "const dflt = {};",
+    "const C7 = defineComponent((p: Props = dflt) => {});",
+    "const C8 = defineComponent((p: I = dflt, c: SetupContext<Emits & Ev2>) => {});",
+    "const C9 = defineComponent((p: { a?: string; b?: number; c?: boolean; d?: object } = dflt) => {}, { name: 'Nine', inheritAttrs: false });",
+]), '{"resolveType":true,"optimize":true}')
+w("multi/types-many-components.tsx", thdr + "\n".join(
+    [f"interface P{i} {{ a{i}: string; b{i}?: number; c{i}: boolean; d{i}: () => void }}" for i in range(6)]
+    + [f"const K{i} = defineComponent((p: P{i} & P{(i+1)%6} = dyn{i}, c: SetupContext<{{ (e: 'x{i}' | 'y{i}' | 'z{i}'): void }}>) => () => <div v-show={{p.c{i}}}>{{p.a{i}}}</div>);" for i in range(6)]
+    + [f"const dyn{i} = {{}};" for i in range(6)]), '{"resolveType":true,"optimize":true}')
+w("multi/everything.tsx", thdr + "\n".join([
+    "import { KeepAlive } from 'vue';",
+    "interface P { zeta: string; alpha?: number; mid: boolean; beta: () => void }",
+    "let cap1, cap2, cap3; cap1 = <A>{cap1}</A>; cap2 = <B>{cap2}</B>; cap3 = <C>{cap3}</C>;",
+    "export default defineComponent((p: P = dflt, { emit }: SetupContext<{ (e: 'q' | 'r' | 's' | 't'): void }>) => () => (",
+    "  <KeepAlive><div id={p.zeta} title={p.alpha} {...{ lang: l, dir: d, role: r }} v-show={p.mid} v-dir_a_b_c_d={x} onClick={h1} onClick={h2}>",
+    "    <Comp v-model:foo_m1_m2_m3={m} v-slots={{ s1, s2, s3, s4 }}>{f()}</Comp><Comp>{g()}</Comp><Comp>{h()}</Comp><x-el a={a} b={b} c={c} d={d}>{k}</x-el>",
+    "  </div></KeepAlive>));",
+    "const dflt = {};",
+]), '{"resolveType":true,"optimize":true,"mergeProps":false,"customElementPatterns":["^x-"]}')
 print("generated under", os.path.normpath(root))
